@@ -342,6 +342,18 @@ def check(chk):
     s = src(pib)
     chk.judge('self._process_segment_buffer()' in s and 'not self._io_buffer.has_consumed_segment' in s and 'cql_frame_buffer.write(segment.payload)' in src(psb),
               'C06.buffer', pib, 'segments feed the cql frame buffer; no segment consumed -> wait for more bytes', 'segment/frame buffer hand-over changed')
+    # the flag "a whole segment was consumed in this pass" belongs to _process_segment_buffer: a frame being delivered says nothing about the segment,
+    # which may hold further frames
+    chk.rule('C06.flag', '_segment_consumed is written only by Connection._process_segment_buffer (and initialised in the buffer class)')
+    wsc = []
+    for q_, f_ in conn.functions():
+        for n_ in body_walk(f_):
+            if isinstance(n_, (ast.Assign, ast.AugAssign)) and any(isinstance(t_, ast.Attribute) and t_.attr == '_segment_consumed' for t_ in (n_.targets if isinstance(n_, ast.Assign) else [n_.target])):
+                wsc.append((q_, n_))
+    bad_w = [(q_, n_) for q_, n_ in wsc if q_ not in ('Connection._process_segment_buffer', '_ConnectionIOBuffer.__init__')]
+    chk.judge(bool(wsc) and not bad_w, 'C06.flag', bad_w[0][1] if bad_w else psb, 'writers of _segment_consumed: %s' % sorted(set(q_ for q_, _n in wsc)),
+              '%s also writes _segment_consumed: cleared when a frame is delivered, process_io_buffer stops after the first frame of a segment that carries several - the others stay in the '
+              'frame buffer until another segment arrives, the last ones for ever' % sorted(set(q_ for q_, _n in bad_w)))
     # a failure (CRC mismatch, decode error, protocol error) is swallowed by defunct_on_error: the loop itself must stop delivering
     chk.rule('C06.stop', 'process_io_buffer: between a step that can fail the connection (_process_segment_buffer, process_msg) and the next delivery '
                          '(_read_frame_header / process_msg) every path tests self.is_defunct and leaves on the defunct arm')
